@@ -50,6 +50,7 @@ pub fn enable(frequency: u64, start: u64, read_cost: u64, horizon_reads: u64) {
     HORIZON.store(horizon_reads, SeqCst);
     QUANTUM.store(1, SeqCst);
     HORIZON_HIT.store(false, SeqCst);
+    COST_SCRIPT.lock().unwrap_or_else(|e| e.into_inner()).clear();
     {
         // Reads must not allocate (they happen inside timed sections whose allocations are
         // tallied): reserve the per-thread tables up front.
@@ -69,6 +70,32 @@ pub fn disable() {
 }
 
 static HORIZON_HIT: AtomicBool = AtomicBool::new(false);
+
+/// Optional schedule of read costs: `(reads, cost)` phases in order, the last one repeating for ever
+/// (a clock whose reads are slow at first: cold caches, frequency scaling). Empty = `READ_COST`.
+static COST_SCRIPT: Mutex<Vec<(u64, u64)>> = Mutex::new(Vec::new());
+
+/// Sets the read-cost schedule for the current `enable` (cleared by the next one).
+pub fn set_read_cost_script(phases: &[(u64, u64)]) {
+    let mut s = COST_SCRIPT.lock().unwrap_or_else(|e| e.into_inner());
+    s.clear();
+    s.extend_from_slice(phases);
+}
+
+fn cost_of_read(n: u64) -> u64 {
+    let s = COST_SCRIPT.lock().unwrap_or_else(|e| e.into_inner());
+    if s.is_empty() {
+        return READ_COST.load(SeqCst);
+    }
+    let mut first = 0u64;
+    for (reads, cost) in s.iter() {
+        if n < first.saturating_add(*reads) {
+            return *cost;
+        }
+        first = first.saturating_add(*reads);
+    }
+    s.last().unwrap().1
+}
 
 /// Aborts the current run because its budget is exhausted. The panic may be
 /// caught and re-labelled on its way up, so the fact is also kept in a flag.
@@ -96,7 +123,7 @@ pub fn read(edge: Edge) -> Option<u64> {
     if n >= HORIZON.load(SeqCst) {
         raise_horizon();
     }
-    let raw = NOW.fetch_add(READ_COST.load(SeqCst), SeqCst);
+    let raw = NOW.fetch_add(cost_of_read(n), SeqCst);
     let q = QUANTUM.load(SeqCst).max(1);
     let v = raw / q * q;
     if edge == Edge::End {
